@@ -111,6 +111,35 @@ EMBED_IVS = [dict(days=1, hours=2, dialect="MYSQL"), dict(hours=36, dialect="POS
              dict(days=-3), dict(weeks=2), dict(quarters=1), dict(days=1, hours=2, minutes=3, seconds=4)]
 
 
+def _zoo_embed():
+    """every term kind of the zoo with the interval in each of its operand slots (kinds whose constructor needs a
+    column there - it calls a column method on the operand - are left out: listed in the evidence as not constructible)"""
+    from mc import zoo
+    out, skipped = {}, []
+    for name, n, b in zoo.term_zoo()[0]:
+        # Values / AtTimezone take a column *name* there (it is quoted as an identifier); the zoo's NestedCriterion glues its
+        # operands with a comparator that has no surrounding blanks, so the unit keyword cannot be told from the next word
+        if name in ("QueryBuilder", "_SetOperation", "Interval", "Values", "AtTimezone", "NestedCriterion"):
+            continue
+        for slot in range(n):
+            def build(iv, b=b, n=n, slot=slot):
+                return b([(iv if i == slot else Field("c%d" % i, table=Table("t"))) for i in range(n)])
+
+            try:
+                text = build(Interval(days=1)).get_sql(fp.CTX["generic"])
+                if "INTERVAL" not in text:
+                    raise ValueError("operand not rendered")
+            except Exception as e:
+                skipped.append("%s[%d]:%s" % (name, slot, type(e).__name__))
+                continue
+            out["zoo:%s:%d" % (name, slot)] = build
+    return out, skipped
+
+
+ZOO_EMBED, ZOO_SKIPPED = _zoo_embed()
+EMBED.update(ZOO_EMBED)
+
+
 def chunks(tier, seed):
     dom = DOM[tier]
     out = [{"kind": "ymd", "y": y, "m": m, "tier": tier} for y in dom for m in dom]
@@ -123,6 +152,8 @@ def expand(chunk):
     if chunk["kind"] == "embed":
         for i in range(len(EMBED_IVS)):
             for pos in list(EMBED) + ["stmt:" + k for k in STMT_EMBED]:
+                if pos.startswith("zoo:") and i > 3 and chunk["tier"] == "quick":
+                    continue
                 yield {"k": "embed", "iv": i, "pos": pos}
         return
     if chunk["kind"] == "qw":
@@ -195,7 +226,7 @@ def run_embed(case, res):
         n_want = 2 if pos == "between" else 1
         reads = [ref_read(l, form) for l in lits]
         if len(lits) != n_want or any(r != exp for r in reads):
-            res.violate("C18|embedded|%s|%s" % (form, pos.split(":")[0] if pos.startswith("stmt") else pos),
+            res.violate("C18|embedded|%s|%s" % (form, pos.split(":")[0] if pos.startswith("stmt") else (pos.rsplit(":", 1)[0] if pos.startswith("zoo:") else pos)),
                         "an interval inside a larger expression / statement is not rendered in the target dialect's form with the requested components",
                         context=name, position=pos, components=kw, rendered=text, literals=lits, read_back=reads, expected=exp)
 
